@@ -176,6 +176,28 @@ def run(ctx):
             failing.append(dict(profile="debug", cmd="transfer " + t, program=prog, impl=line[:400],
                                 why="%r transfers control to its label (node %d)%s; its successors in the graph are %s" % (
                                     t, tgt, "" if kind == "jump" else " or continues (node %d)" % fall, nx)))
+    # which texts are a RETURN: exactly `jalr x0, 0(ra)` in any spelling (ret, jr ra, ...); with another offset, base or
+    # link register the instruction is an indirect jump and must not be folded into the function's exit
+    rforms = [("ret", True), ("jr ra", True), ("jalr x0, 0(ra)", True), ("jalr zero, ra, 0", True), ("jalr x0, (x1)", True), ("JALR x0, 0x0(ra)", True),
+              ("jalr x0, 4(ra)", False), ("jalr zero, ra, 8", False), ("jalr x0, -4(x1)", False), ("jr t0", False), ("jalr x0, 0(t1)", False),
+              ("jalr ra, 0(ra)", False), ("jalr t0, ra, 0", False), ("jalr ra", False), ("jalr x0, 2047(ra)", False)]
+    rprogs = ["main:\n jal f\n li a7, 10\n ecall\nf:\n beqz a0, alt\n ret\nalt:\n %s\n" % t for t, _ in rforms]
+    rout = lib.run_impl(ctx, [lib.store_cmd("cfg markup -", pipe.single(p_), "a.s") for p_ in rprogs], tag="retforms")
+    rmod = lib.run_model(ctx, [lib.store_cmd("cfg markup -", pipe.single(p_), "a.s") for p_ in rprogs], tag="retforms-model")
+    evaluations += len(rprogs)
+    for (t, isret), prog, line, ml in zip(rforms, rprogs, rout, rmod):
+        if lib._PICKS.sub("", line) != lib._PICKS.sub("", ml):
+            disagreements.append(dict(profile="debug", cmd="cfg markup: " + t, impl=line[:200], model=ml[:200]))
+        mm = re.search(r"C\(7 N\((\w+) ([^|]*)\|[^)]*\) L\[[^\]]*\] \w+ >\[([0-9,]*)\]", line)
+        if not mm:
+            if isret or not line.startswith("CE("):
+                failing.append(dict(profile="debug", cmd="return " + t, program=prog, impl=line[:300], why="the program with %r is not analysed" % t))
+            continue
+        merged = mm.group(1) == "jumplink" and mm.group(3) == "6"
+        if merged != isret:
+            failing.append(dict(profile="debug", cmd="return " + t, program=prog, impl=line[:400],
+                                why="%r is %s; the graph %s" % (t, "a return (jalr x0, 0(ra))" if isret else "not a return",
+                                                                 "folds it into the function's exit" if merged else "does not treat it as one (node %s, successors [%s])" % (mm.group(1), mm.group(3)))))
     forms, dbad, ddis = decode_check(ctx)
     evaluations += len(forms)
     for d in dbad:
